@@ -1,6 +1,6 @@
 """C13 - measured fan limits follow the RPM curve; configured limits always win"""
 import vlib
-from props import recfam
+from props import recfam, dmnfam
 
 INV = ['C13_Derived', 'C13_ConfiguredWins', 'C13_Refuses', 'C13_Conforms']
 
@@ -14,6 +14,13 @@ def check(run):
                        lambda i: dict(VERIF_SEED=run.seed, VERIF_SHARD=i, VERIF_SHARDS=shards, VERIF_N=run.pick(300, 6000)), 'c13')
     run.sample_from(traces[0], 2)
     run.validate('Rec_C13', recfam.rec_cfg('Rec_C13', INV), traces, 'rec', parallel=8)
+    # the limits a REAL analysis arrives at: controller.Run with the initialization sequence (sweep, RPM-curve measurement,
+    # attachment) behind plants that turn above a threshold and registers that keep only some values; what the "Attached"
+    # hook reports is compared with what the definition gives for that plant
+    rtr = run.drive('TestDriveC16', 8, lambda i: dict(VERIF_SEED=run.seed * 1000 + 700 + i, VERIF_N=run.pick(3, 30), VERIF_PARALLEL=1,
+                                                     VERIF_MAXFANS=3), 'c13run', timeout=3000)
+    run.validate('Monitor_Daemon', dmnfam.monitor_cfg([], ['C13_AnalysedLimits']), rtr, 'monrun')
+    run.cov['analyses_observed'] = dmnfam.count(rtr, lambda ln: '"ev":"MeasureBegin"' in ln)
     n = recfam.count_lines(traces)
     second = 0
     for t in traces:
